@@ -223,6 +223,7 @@ var c17exoticKinds = []struct {
 	{"binary", "binary", []interface{}{[]byte("ab"), []byte("cd"), []byte{0}, []byte{0xff, 0xfe}, []byte("abc"), []byte("a"), []byte{}}, []string{"YWI%3D", "Y2Q%3D", "AA%3D%3D", "%2F%2F4%3D", "YWJj", "YQ%3D%3D", ""}},
 	{"decimal64", "decimal64 { fraction-digits 2; }", []interface{}{1.5, 2.25, -0.01, 0.0, 100.0, 1.51, -1.5, 2.2}, []string{"1.5", "2.25", "-0.01", "0", "100", "1.51", "-1.5", "2.2"}},
 	{"enumeration", "enumeration { enum a; enum b; enum ab; enum c { value 10; } enum d; }", []interface{}{"a", "ab", "c", "b", "d"}, []string{"a", "ab", "c", "b", "d"}},
+	{"union-of-enumerations", "union { type enumeration { enum x; enum y; } type enumeration { enum z; enum w; enum x2; } }", []interface{}{"x", "w", "x2", "z", "y"}, []string{"x", "w", "x2", "z", "y"}},
 	{"union", "union { type int32; type string; }", []interface{}{5, "x", -1, "5x", "10", 7, "y", 50}, []string{"5", "x", "-1", "5x", "10", "7", "y", "50"}},
 }
 
